@@ -95,9 +95,9 @@ STEPS = {'limit': None, 'half': 'half', 'mm3': 0.003, 'cap1cm': 0.01,
          # 150 steps end 5 nm below the core top: a last step of 5 nm (a real distance, not round-off)
          'nm-short': 0.001999999967}
 STEP_CASES = ['limit', 'half', 'mm3', 'cap1cm', 'dyadic', 'mm1.25', 'nm-short']
-GRID_CASES = ['plane', 'inside', 'inlet', 'outlet', 'two', 'fixed3', 'fixed3-desc']
+GRID_CASES = ['plane', 'inside', 'inlet', 'outlet', 'two', 'fixed3', 'fixed3-desc', 'fixed4-dup']
 MESH_DEPENDENT = ('plane', 'inside', 'two')
-N_GRIDS = {'none': 0, 'plane': 1, 'inside': 1, 'inlet': 1, 'outlet': 1, 'two': 2, 'fixed3': 3, 'fixed3-desc': 3}
+N_GRIDS = {'none': 0, 'plane': 1, 'inside': 1, 'inlet': 1, 'outlet': 1, 'two': 2, 'fixed3': 3, 'fixed3-desc': 3, 'fixed4-dup': 4}
 
 
 # ----------------------------------------------------------------------
@@ -236,6 +236,8 @@ def place_grids(gc, z, lo, hi):
         return [0.05, 0.15, 0.25]
     if gc == 'fixed3-desc':
         return [0.25, 0.05, 0.15]      # the order of the listed positions is free
+    if gc == 'fixed4-dup':
+        return [0.05, 0.15, 0.15, 0.25]      # two grids listed at the same elevation are two grids
     zz = [float(x) for x in z]
     interior = [i for i, p in enumerate(zz) if lo < p < hi and i + 1 < len(zz) and zz[i + 1] <= hi]
     i = interior[len(interior) // 2]
